@@ -13,6 +13,20 @@ func init() {
 
 func runC07(k int, rng *Rng) CaseResult {
 	cfg := genConfig(rng, GenOpts{UniqueBias: 0.4})
+	if k%4 == 0 {
+		// a unique field with a case constraint: members of one batch that differ as given and are
+		// equal once canonicalised (histories aim at them) refuse the whole batch
+		c := cfg.Fields["KS"]
+		c.Index, c.Unique = true, true
+		if !c.Upper && !c.Lower {
+			if rng.Bool() {
+				c.Upper = true
+			} else {
+				c.Lower = true
+			}
+		}
+		cfg.Fields["KS"] = c
+	}
 	clockNewCase(clockModeFor(cfg))
 	installHooks(stdHooks())
 	w := NewWorld("C07", rng, cfg, caseDir(k, "c07"))
